@@ -72,8 +72,11 @@ class YaqlEngine:
         if options:
             return self.copy(options)(expression)
 
+        # ply lexers keep the input text and cursor on the object: give
+        # every parse its own clone so that one engine can be shared by
+        # several threads
         return expressions.Statement(
-            self.parser.parse(expression, lexer=self.lexer), self)
+            self.parser.parse(expression, lexer=self.lexer.clone()), self)
 
     def copy(self, options):
         opt = dict(self._options)
